@@ -9,12 +9,12 @@ import JaxVerif.Lemmas.Parse
 namespace JV
 
 /-- a state in which the four flags are assigned and `elem` is still a string -/
-def mkSt (e : List Char) (m : Mods) (k : Option PKind) (iv : Option Nat) (idx : Nat) : PSt :=
+def mkSt (e : List Char) (m : Mods) (k : Option AxKind) (iv : Option Nat) (idx : Nat) : PSt :=
   { elem := e, intVal := none, b := some m.broadcastable, v := some m.variadic, a := some m.anonymous,
     t := some m.treepath, kind := k, iv := iv, idx := idx, made := none, out := none }
 
 /-- one round of the `while True` loop, as the model sees it -/
-def loopSpec (e : List Char) (m : Mods) (k : Option PKind) (iv : Option Nat) (idx : Nat) : POut :=
+def loopSpec (e : List Char) (m : Mods) (k : Option AxKind) (iv : Option Nat) (idx : Nat) : POut :=
   match e with
   | [] => .brk (mkSt [] m k iv idx)
   | c :: r =>
@@ -26,7 +26,7 @@ def loopSpec (e : List Char) (m : Mods) (k : Option PKind) (iv : Option Nat) (id
     else .brk (mkSt (c :: r) m k iv idx)
 
 /-- the loop, as the model sees it -/
-def loopResult (e : List Char) (m : Mods) (k : Option PKind) (iv : Option Nat) (idx : Nat) : POut :=
+def loopResult (e : List Char) (m : Mods) (k : Option AxKind) (iv : Option Nat) (idx : Nat) : POut :=
   match stripMods (e.length + 1) e m with
   | none => .raised
   | some (base, m') => .ok (mkSt base m' k iv idx)
@@ -49,7 +49,7 @@ theorem classify_feat (base : List Char) :
         | some k => .fixed k
         | none => .symbolic := rfl
 
-theorem iterP_loopSpec (f : PSt → POut) (k : Option PKind) (iv : Option Nat) (idx : Nat)
+theorem iterP_loopSpec (f : PSt → POut) (k : Option AxKind) (iv : Option Nat) (idx : Nat)
     (hf : ∀ e m, f (mkSt e m k iv idx) = loopSpec e m k iv idx) :
     ∀ (n : Nat) (e : List Char) (m : Mods), e.length + 1 ≤ n →
       iterP f n (mkSt e m k iv idx) = loopResult e m k iv idx := by
